@@ -3,6 +3,7 @@ package drivers
 import (
 	"fmt"
 	"path/filepath"
+	"strings"
 
 	"gosym/corpus"
 )
@@ -16,6 +17,7 @@ type codecSpec struct {
 	filter       func(p *corpus.Pkg) bool
 	profile      string
 	harnessesFor func(p *corpus.Pkg, tier string) []string
+	optFilter    func(p *corpus.Pkg, o OptSet) bool
 }
 
 func tierOf(ctx *Ctx) corpus.Tier {
@@ -45,7 +47,7 @@ func prepareCodec(ctx *Ctx, spec codecSpec) (*Prepared, error) {
 	if opts == nil {
 		opts = []OptSet{BaseOpts}
 	}
-	mod, entries, err := buildCorpus(ctx, pkgs, opts, tier)
+	mod, entries, err := buildCorpus(ctx, pkgs, opts, tier, spec.optFilter)
 	if err != nil {
 		return nil, err
 	}
@@ -117,7 +119,21 @@ func PrepareC06(ctx *Ctx) (*Prepared, error) {
 }
 
 func PrepareC07(ctx *Ctx) (*Prepared, error) {
+	// the decoders of string-bearing records are also run as generated with
+	// SharedMemoryStrings (the only option that changes decoding code)
+	shared := OptSet{Name: "shared", Unsafe: true, Shared: true}
 	return prepareCodec(ctx, codecSpec{profile: "lite", perJob: 1, harnesses: []string{"VH_C07", "VH_C07W"},
+		opts: []OptSet{BaseOpts, shared},
+		optFilter: func(p *corpus.Pkg, o OptSet) bool {
+			if !o.Shared {
+				return true
+			}
+			switch p.Leaf {
+			case "string", "StrS", "Msg", "RO", "Uni":
+				return !p.Deep
+			}
+			return strings.Contains(p.Ctor, "string")
+		},
 		harnessesFor: func(p *corpus.Pkg, tier string) []string {
 			if tier == "thorough" || p.Ctor == "T" || p.Ctor == "T[]" || ((p.Leaf == "int32" || p.Leaf == "string") && !p.Deep && !p.LongStr) {
 				return []string{"VH_C07", "VH_C07W"}
